@@ -136,7 +136,8 @@ def check(ctx):
             role = s.extra['role']
             o.count()
             okk = (role[0] == 'store' and s.func is not None and s.func.name == '__init__') or \
-                  (role[0] == 'method' and role[1] in ('append', 'copy')) or role[0] in ('subscript-del', 'subscript-load', 'iter', 'test')
+                  (role[0] == 'method' and role[1] in ('append', 'copy')) or role[0] in ('subscript-del', 'subscript-load', 'iter', 'test') or \
+                  (role[0] == 'arg' and role[1] in ('list', 'tuple', 'len', 'enumerate', 'iter'))      # builtins that only read the list
             if not okk or s.cls is not c:
                 o.fail(P, s.ctx, s.stmt, f'the routing history is changed in an unexpected way ({role[0]}{"." + role[1] if role[0] == "method" else ""})', file=s.mod.path, line=s.line)
 
@@ -327,7 +328,9 @@ def check(ctx):
         init = P.method(c, '__init__')[1]
         stores = [s for s in ast.walk(init) if isinstance(s, ast.Assign) and any(is_self_attr(t, '_decider_override') for t in s.targets)]
         o.count()
-        vals = sorted(ast.unparse(s.value) for s in stores)
+        def _alts(e):
+            return _alts(e.body) + _alts(e.orelse) if isinstance(e, ast.IfExp) else [e]
+        vals = sorted(ast.unparse(v) for s in stores for v in _alts(s.value))
         if vals != ['partial(decider_override, self)', 'self.part_pass_decider']:
             o.fail(P, 'DecisionGate.__init__', 'self._decider_override = partial(decider_override, self)', f'the decider is not the user override applied to (gate, part) or the default decider; found {vals}',
                    file=c.mod.path, line=init.lineno)
